@@ -9,7 +9,11 @@ read off the arrays.
 * `EnvOK`, `StOK`, `AppOK`, `MA`, `PostOK`   the invariants (what the search reads is well formed; `lsub` prefix frozen,
                                   sizes, marked pivoted rows have a discovered representative; appended rows
                                   distinct / unpivoted / marked and every marked unpivoted row appended; the list
-                                  of finished representatives is duplicate free, below jcol, and `segrep` has room);
+                                  of finished representatives is duplicate free, below jcol; the filled part of
+                                  `segrep` is a duplicate-free list of columns below jcol <= |segrep| - `PostOK.pop`:
+                                  there is room for a column that is not in it yet; `ScanAt` carries "an entry of the
+                                  filled part that is not discovered lies below the node being scanned", so a node the
+                                  search descends to is never one of the panel's segments already there);
 * `scan_rows`, `scanAt_all`       the machine started inside the pruned list of a representative `s` reaches the
                                   point where `s` is popped, and in between does exactly what folding the recursive
                                   visit over the successors found in the rest of the list does (`ScanRes`: finished
@@ -105,7 +109,7 @@ structure EnvOK : Prop where
   lists : ∀ s, 0 ≤ s → s < e.jcol → repOf e s = s →
     0 ≤ rd e.xlsub s ∧ rd e.xlsub s ≤ rd e.xprune s ∧ rd e.xprune s ≤ nextl0 ∧
     ∀ x, rd e.xlsub s ≤ x → x < rd e.xprune s →
-      0 ≤ rd L x ∧ rd L x < e.m ∧ (rd e.perm_r (rd L x) = EMPTY ∨ s ≤ rd e.perm_r (rd L x))
+      0 ≤ rd L x ∧ rd L x < e.m ∧ (rd e.perm_r (rd L x) = EMPTY ∨ s ≤ rd e.perm_r (rd L x) ∨ repOf e (rd e.perm_r (rd L x)) = s)
 
 /-- representative `t` has been discovered: `repfnz[t] != EMPTY` -/
 def disc (st : St) (t : Int) : Prop := rd st.repfnz t ≠ EMPTY
@@ -132,7 +136,8 @@ structure PostOK (post : List Nat) (st : St) : Prop where
   nodup : post.Nodup
   lt : ∀ t ∈ post, (t : Int) < e.jcol
   fin : ∀ t ∈ post, disc st (t : Int)
-  cap : st.nseg + e.jcol ≤ st.segrep.size + post.length
+  cap : (slice st.segrep 0 st.nseg).Nodup ∧ (∀ v ∈ slice st.segrep 0 st.nseg, 0 ≤ v ∧ v < e.jcol) ∧
+    e.jcol ≤ st.segrep.size
 
 variable {e L nextl0}
 
@@ -202,6 +207,78 @@ theorem or_shuffle {A B C D E F : Prop} : (((A ∨ B) ∨ C ∨ D) ∨ E ∨ F) 
 
 theorem slice_length (a : Array Int) (lo hi : Int) : (slice a lo hi).length = (hi - lo).toNat := by
   simp [slice]
+
+theorem nodup_int_length {l : List Int} {n : Int} (hnd : l.Nodup) (hlt : ∀ v ∈ l, 0 ≤ v ∧ v < n) :
+    (l.length : Int) ≤ n ∨ l = [] := by
+  by_cases hl : l = []
+  · exact Or.inr hl
+  left
+  have h1 : (l.map Int.toNat).Nodup := by
+    refine Nodup.map_on ?_ hnd
+    intro a ha b hb hab
+    have := (hlt a ha).1; have := (hlt b hb).1; omega
+  have h2 := nodup_lt_length (n := n.toNat) h1 (by
+    intro t ht
+    obtain ⟨v, hv, rfl⟩ := mem_map.mp ht
+    have := hlt v hv; omega)
+  rw [length_map] at h2
+  obtain ⟨v, hv⟩ := exists_mem_of_ne_nil l hl
+  have := hlt v hv
+  omega
+
+/-- the filled part of `segrep` after a stretch of the search that appended `nw` (in reverse) -/
+theorem seg_ext {st st2 : St} {nw : List Nat} (hn0 : 0 ≤ st.nseg) (hn2 : st2.nseg = st.nseg + nw.length)
+    (hframe : ∀ x, x < st.nseg → rd st2.segrep x = rd st.segrep x)
+    (hnew : slice st2.segrep st.nseg st2.nseg = nw.reverse.map Int.ofNat) :
+    slice st2.segrep 0 st2.nseg = slice st.segrep 0 st.nseg ++ nw.reverse.map Int.ofNat := by
+  rw [slice_append st2.segrep (le_refl 0) hn0 (by omega : st.nseg ≤ st2.nseg), hnew]
+  congr 1
+  exact slice_congr (le_refl 0) (fun y _ hy => hframe y hy)
+
+theorem seg_mem_ext {st st2 : St} {nw : List Nat} (hn0 : 0 ≤ st.nseg) (hn2 : st2.nseg = st.nseg + nw.length)
+    (hframe : ∀ x, x < st.nseg → rd st2.segrep x = rd st.segrep x)
+    (hnew : slice st2.segrep st.nseg st2.nseg = nw.reverse.map Int.ofNat) {v : Int}
+    (hv : v ∈ slice st2.segrep 0 st2.nseg) : v ∈ slice st.segrep 0 st.nseg ∨ ∃ t ∈ nw, v = ((t : Nat) : Int) := by
+  rw [seg_ext hn0 hn2 hframe hnew, mem_append] at hv
+  rcases hv with h | h
+  · exact Or.inl h
+  · right
+    obtain ⟨t, ht, rfl⟩ := mem_map.mp h
+    exact ⟨t, mem_reverse.mp ht, rfl⟩
+
+theorem seg_push (a : Array Int) {n : Int} (c : Int) (h0 : 0 ≤ n) (h1 : n < a.size) :
+    slice (wr a n c) 0 (n + 1) = slice a 0 n ++ [c] := by
+  rw [slice_snoc _ (le_refl 0) h0, rd_wr_eq h0 h1]
+  congr 1
+  exact slice_congr (le_refl 0) (fun y _ hy => rd_wr_ne (by omega))
+
+/-- placing `c` (a column below jcol that is not yet in the filled part of `segrep`) in postorder: there is room,
+and the filled part stays a duplicate-free list of columns below jcol -/
+theorem PostOK.pop {st2 : St} {post2 : List Nat} (hpo : PostOK e post2 st2) (hn0 : 0 ≤ st2.nseg) {c : Nat}
+    (hc : (c : Int) < e.jcol) (hcseg : (c : Int) ∉ slice st2.segrep 0 st2.nseg) :
+    st2.nseg < st2.segrep.size ∧
+    ((slice (wr st2.segrep st2.nseg (c : Int)) 0 (st2.nseg + 1)).Nodup ∧
+      (∀ v ∈ slice (wr st2.segrep st2.nseg (c : Int)) 0 (st2.nseg + 1), 0 ≤ v ∧ v < e.jcol) ∧
+      e.jcol ≤ (wr st2.segrep st2.nseg (c : Int)).size) := by
+  obtain ⟨nd, lt, sz⟩ := hpo.cap
+  have hnd : (slice st2.segrep 0 st2.nseg ++ [(c : Int)]).Nodup := by
+    rw [nodup_append]
+    exact ⟨nd, by simp, fun a ha b hb => by
+      rw [mem_singleton] at hb; subst hb; intro hab; subst hab; exact hcseg ha⟩
+  have hlt : ∀ v ∈ slice st2.segrep 0 st2.nseg ++ [(c : Int)], 0 ≤ v ∧ v < e.jcol := by
+    intro v hv
+    rcases mem_append.mp hv with h | h
+    · exact lt v h
+    · rw [mem_singleton] at h; subst h; exact ⟨by omega, hc⟩
+  have hroom : st2.nseg < st2.segrep.size := by
+    rcases nodup_int_length hnd hlt with h | h
+    · rw [length_append, slice_length] at h
+      simp at h
+      omega
+    · simp at h
+  refine ⟨hroom, ?_, ?_, by rw [size_wr]; exact sz⟩
+  · rw [seg_push _ _ hn0 hroom]; exact hnd
+  · rw [seg_push _ _ hn0 hroom]; exact hlt
 
 /-- marking a row whose representative (if it is pivoted) is discovered -/
 theorem StOK.mark {st : St} (h : StOK e L nextl0 st) (row : Int)
@@ -397,6 +474,7 @@ def ScanAt (adj : Nat → List Nat) (f : Nat) : Prop :=
     rd e.xlsub s ≤ x → x + d = rd e.xprune s →
     StOK e L nextl0 st → PostOK e post st → disc st s →
     (∀ t : Nat, (t : Int) < e.jcol → disc st t → t ∈ post ∨ t ≤ s) → MA e nextl0 st →
+    (∀ v ∈ slice st.segrep 0 st.nseg, ¬ disc st v → v < (s : Int)) →
     ∃ n st' post',
       (∀ F, run e (n + F) ⟨s, x, rd e.xprune s, st⟩ = run e F ⟨s, rd e.xprune s, rd e.xprune s, st'⟩) ∧
       post' = (succFrom e L s x (rd e.xprune s)).foldl (fun acc r => dfsVisit adj f r acc) post ∧
@@ -504,7 +582,7 @@ theorem scan_rows (hE : EnvOK e L nextl0) {adj : Nat → List Nat}
   intro d
   induction d with
   | zero =>
-    intro s x st post hs hf hrs hx hxd hst hpo hds hdf hma
+    intro s x st post hs hf hrs hx hxd hst hpo hds hdf hma hsu
     have hx' : x = rd e.xprune s := by omega
     subst hx'
     refine ⟨0, st, post, fun F => by simp, ?_, ?_⟩
@@ -515,7 +593,7 @@ theorem scan_rows (hE : EnvOK e L nextl0) {adj : Nat → List Nat}
           have : nw = [] := by simpa using hnw
           subst this; simp [slice_nil]⟩
   | succ d ihd =>
-    intro s x st post hs hf hrs hx hxd hst hpo hds hdf hma
+    intro s x st post hs hf hrs hx hxd hst hpo hds hdf hma hsu
     obtain ⟨hl0, hl1, hl2, hrows⟩ := hE.lists s (by omega) hs hrs
     have hxlt : x < rd e.xprune s := by omega
     have hx0 : 0 ≤ x := by omega
@@ -534,6 +612,7 @@ theorem scan_rows (hE : EnvOK e L nextl0) {adj : Nat → List Nat}
       intro st1 hm hst1 hma1 hmark hstep hnoop
       obtain ⟨n, st', post', hrun, hpost, hres⟩ := ihd s (x + 1) st1 post hs hf hrs (by omega) (by omega) hst1
         (hpo.of_mild hm) ((hm.disc _).mpr hds) (fun t ht hd => hdf t ht ((hm.disc _).mp hd)) hma1
+        (fun v hv hd => hsu v (by rw [← hm.segrep, ← hm.nseg]; exact hv) (fun h => hd ((hm.disc _).mpr h)))
       refine ⟨n + 1, st', post', ?_, ?_, hres.of_mild hm x hx0 (by push_cast; omega) hmark⟩
       · intro F
         rw [show n + 1 + F = (n + F) + 1 by omega, run_row (by exact hxlt), hstep]
@@ -616,11 +695,12 @@ theorem scan_rows (hE : EnvOK e L nextl0) {adj : Nat → List Nat}
             · exact h
           obtain ⟨hrep1, hrep2, hrep3⟩ := hE.rep _ hkpr.1 hkpr.2
           have hskp : (s : Int) < rd e.perm_r (rd L x) := by
-            rcases hrp with h | h
+            rcases hrp with h | h | h
             · exact absurd h hkp
             · rcases Int.lt_or_eq_of_le h with h | h
               · exact h
               · exfalso; rw [← h, hrs] at hdisc; exact hds hdisc
+            · exfalso; rw [h] at hdisc; exact hds hdisc
           obtain ⟨c, hc⟩ := Int.eq_ofNat_of_zero_le (show 0 ≤ repOf e (rd e.perm_r (rd L x)) by omega)
           have hstep := rowStep_descend (e := e) (c := ⟨s, x, rd e.xprune s, st⟩) (by simpa [hrow] using hmk)
             (by simpa [hrow] using hkp) (by rw [hrow]; exact hdisc)
@@ -679,7 +759,22 @@ theorem scan_rows (hE : EnvOK e L nextl0) {adj : Nat → List Nat}
                   · right; omega)
               ((hma.markPivoted (row := rd L x) (by rw [hkpdef]; exact hkp)).congr e_lsub e_nextl (fun r hr => by
                 unfold mk2 at hr ⊢; rw [e_mark] at hr; exact hr))
+              (fun v hv hd => by
+                rw [e_seg, e_nseg] at hv
+                have := hsu v hv (fun h => hd (hd1 _ h))
+                omega)
           obtain ⟨nwc, hnw1, hnw2, hnw3, hnw4⟩ := hres2.new
+          have hsegm : ∀ v ∈ slice st2.segrep 0 st2.nseg, v ∈ slice st.segrep 0 st.nseg ∨ ∃ t ∈ nwc, v = ((t : Nat) : Int) := by
+            intro v hv
+            have := seg_mem_ext (st := st1) (st2 := st2) (by rw [e_nseg]; exact hst.nseg0) hnw3 hres2.segFrame hnw4 hv
+            rwa [e_seg, e_nseg] at this
+          have hcseg : (c : Int) ∉ slice st2.segrep 0 st2.nseg := by
+            intro hin
+            rcases hsegm _ hin with h | ⟨t, ht, h⟩
+            · have := hsu _ h (fun hd => hd hdisc); omega
+            · have : c = t := by exact_mod_cast h
+              subst this; exact hnw2 c ht hd1c
+          have hpopc := hres2.pok.pop hres2.ok.nseg0 hrep2 hcseg
           -- the pop of c
           have hcpost : c ∉ post := fun h => by have := hpo.fin c h; exact this hdisc
           have hcpost2 : c ∉ post2 := by
@@ -695,13 +790,7 @@ theorem scan_rows (hE : EnvOK e L nextl0) {adj : Nat → List Nat}
                 · omega
                 · have := hres2.pok.lt t ht; omega)
             simpa using this
-          have hnsegr : 0 ≤ st2.nseg ∧ st2.nseg < st2.segrep.size := by
-            have h1 := hres2.pok.cap
-            have h2 := hres2.ok.nseg0
-            constructor
-            · exact h2
-            · have : (e.jcol.toNat : Int) = e.jcol := Int.toNat_of_nonneg hE.jcol0
-              omega
+          have hnsegr : 0 ≤ st2.nseg ∧ st2.nseg < st2.segrep.size := ⟨hres2.ok.nseg0, hpopc.1⟩
           have hpar : rd st2.parent (c : Int) = (s : Int) := by
             rw [(hres2.frame (c : Int) (le_refl _)).1, e_par, rd_wr_eq (by omega) (by have := hst.szPar; omega)]
           have hxpl : rd st2.xplore (s : Int) = x + 1 := by
@@ -735,9 +824,16 @@ theorem scan_rows (hE : EnvOK e L nextl0) {adj : Nat → List Nat}
                 rcases mem_cons.mp ht with rfl | ht
                 · exact hres2.mono _ hd1c
                 · exact hres2.pok.fin t ht
-              cap := by
-                have := hres2.pok.cap
-                rw [e3_nseg, e3_seg, size_wr, length_cons]; push_cast; omega }
+              cap := by rw [e3_nseg, e3_seg]; exact hpopc.2 }
+          have hsu3 : ∀ v ∈ slice st3.segrep 0 st3.nseg, ¬ disc st3 v → v < (s : Int) := by
+            intro v hv hd
+            rw [e3_nseg, e3_seg, seg_push _ _ hnsegr.1 hnsegr.2, mem_append, mem_singleton] at hv
+            rcases hv with hv | hv
+            · rcases hsegm v hv with h | ⟨t, ht, h⟩
+              · exact hsu v h (fun hd0 => hd ((hd3 _).mpr (hres2.mono _ (hd1 _ hd0))))
+              · exfalso; rw [h] at hd
+                exact hd ((hd3 _).mpr (hres2.pok.fin t (by rw [hnw1]; exact mem_append_left _ ht)))
+            · exfalso; rw [hv] at hd; exact hd ((hd3 _).mpr (hres2.mono _ hd1c))
           have hdf3 : ∀ t : Nat, (t : Int) < e.jcol → disc st3 t → t ∈ c :: post2 ∨ t ≤ s := by
             intro t ht hd
             rcases hres2.newFin t ht ((hd3 _).mp hd) with h | h
@@ -751,6 +847,7 @@ theorem scan_rows (hE : EnvOK e L nextl0) {adj : Nat → List Nat}
           obtain ⟨nr, st4, post4, hrunr, hpost4, hres4⟩ := ihd s (x + 1) st3 (c :: post2) hs hf hrs (by omega) (by omega) hst3 hpo3
             ((hd3 _).mpr (hres2.mono _ (hd1 _ hds))) hdf3
             (hres2.ma.congr (by rw [← hst3def]) (by rw [← hst3def]) (fun r hr => by rw [← hst3def] at hr; exact hr))
+            hsu3
           obtain ⟨nwr, hnr1, hnr2, hnr3, hnr4⟩ := hres4.new
           have hmarks : ∀ nw, post4 = nw ++ post → ∀ r, mk2 e st4 r = e.jcol ↔
               (mk2 e st r = e.jcol ∨ r ∈ slice L (rd e.xprune s - ((d + 1 : Nat) : Int)) (rd e.xprune s) ∨
@@ -940,7 +1037,8 @@ theorem Root.of_mild {st st1 : St} {post : List Nat} (hm : Mild st st1) (h : Roo
 theorem rootStep_spec (hE : EnvOK e L nextl0) {adj : Nat → List Nat}
     (hadj : ∀ s : Nat, (s : Int) < e.jcol → repOf e s = s → adj s = adjG e L s) {fuel : Nat} (hfuel : (e.jcol.toNat + 1) * stepK nextl0 ≤ fuel)
     {st : St} {post : List Nat} (hR : Root (e := e) (L := L) (nextl0 := nextl0) post st)
-    {krow : Int} (hr0 : 0 ≤ krow) (hr1 : krow < e.m) :
+    {krow : Int} (hr0 : 0 ≤ krow) (hr1 : krow < e.m)
+    (hfr : ∀ v ∈ slice st.segrep 0 st.nseg, ¬ disc st v → rd e.perm_r krow ≠ EMPTY → v < repOf e (rd e.perm_r krow)) :
     ∃ st' post', rootStep e fuel st krow = some st' ∧
       Root (e := e) (L := L) (nextl0 := nextl0) post' st' ∧ SegExt st post st' post' ∧
       post' = (rootCols e [krow]).foldl (fun acc k => dfsVisit adj e.jcol.toNat (repN e k) acc) post ∧
@@ -1026,7 +1124,10 @@ theorem rootStep_spec (hE : EnvOK e L nextl0) {adj : Nat → List Nat}
         have hcc : repN e (rd e.perm_r krow).toNat = c := by
           have := repN_cast hE hkpr.1 hkpr.2
           rw [hc] at this; exact_mod_cast this
+        have hfr' : ∀ v ∈ slice st.segrep 0 st.nseg, ¬ disc st v → v < (c : Int) := fun v hv hd => by
+          rw [← hc]; exact hfr v hv hd hkp
         rw [hc] at hdisc hrep1 hrep2 hrep3 ⊢
+        clear hfr
         generalize hkpdef : rd e.perm_r krow = kp at *
         generalize hst1def : ({ st with marker := wr st.marker (2 * e.m + krow) e.jcol, parent := wr st.parent (c : Int) EMPTY, repfnz := wr st.repfnz (c : Int) kp } : St) = st1
         have e_rep : st1.repfnz = wr st.repfnz (c : Int) kp := by rw [← hst1def]
@@ -1078,7 +1179,21 @@ theorem rootStep_spec (hE : EnvOK e L nextl0) {adj : Nat → List Nat}
               · exact Or.inl (hR.fin t ht h))
             ((hR.ma.markPivoted (row := krow) (by rw [hkpdef]; exact hkp)).congr e_lsub e_nextl (fun r hr => by
               unfold mk2 at hr ⊢; rw [e_mark] at hr; exact hr))
+            (fun v hv hd => by
+              rw [e_seg, e_nseg] at hv
+              exact hfr' v hv (fun h => hd (hd1 _ h)))
         obtain ⟨nwc, hnw1, hnw2, hnw3, hnw4⟩ := hres2.new
+        have hsegm : ∀ v ∈ slice st2.segrep 0 st2.nseg, v ∈ slice st.segrep 0 st.nseg ∨ ∃ t ∈ nwc, v = ((t : Nat) : Int) := by
+          intro v hv
+          have := seg_mem_ext (st := st1) (st2 := st2) (by rw [e_nseg]; exact hst.nseg0) hnw3 hres2.segFrame hnw4 hv
+          rwa [e_seg, e_nseg] at this
+        have hcseg : (c : Int) ∉ slice st2.segrep 0 st2.nseg := by
+          intro hin
+          rcases hsegm _ hin with h | ⟨t, ht, h⟩
+          · have := hfr' _ h (fun hd => hd hdisc); omega
+          · have : c = t := by exact_mod_cast h
+            subst this; exact hnw2 c ht hd1c
+        have hpopc := hres2.pok.pop hres2.ok.nseg0 hrep2 hcseg
         have hcpost : c ∉ post := fun h => by have := hpo.fin c h; exact this hdisc
         have hcpost2 : c ∉ post2 := by
           rw [hnw1]; intro h
@@ -1093,10 +1208,7 @@ theorem rootStep_spec (hE : EnvOK e L nextl0) {adj : Nat → List Nat}
               · omega
               · have := hres2.pok.lt t ht; omega)
           simpa using this
-        have hnsegr : 0 ≤ st2.nseg ∧ st2.nseg < st2.segrep.size := by
-          have h1 := hres2.pok.cap
-          have h2 := hres2.ok.nseg0
-          exact ⟨h2, by omega⟩
+        have hnsegr : 0 ≤ st2.nseg ∧ st2.nseg < st2.segrep.size := ⟨hres2.ok.nseg0, hpopc.1⟩
         have hpar : rd st2.parent (c : Int) = EMPTY := by
           rw [(hres2.frame (c : Int) (le_refl _)).1, e_par, rd_wr_eq (by omega) (by have := hst.szPar; omega)]
         generalize hst3def : ({ st2 with segrep := wr st2.segrep st2.nseg (c : Int), nseg := st2.nseg + 1 } : St) = st3
@@ -1125,9 +1237,7 @@ theorem rootStep_spec (hE : EnvOK e L nextl0) {adj : Nat → List Nat}
               rcases mem_cons.mp ht with rfl | ht
               · exact hres2.mono _ hd1c
               · exact hres2.pok.fin t ht
-            cap := by
-              have := hres2.pok.cap
-              rw [e3_nseg, e3_seg, size_wr, length_cons]; push_cast; omega }
+            cap := by rw [e3_nseg, e3_seg]; exact hpopc.2 }
         have hfuel' : nc + 1 ≤ fuel := by
           have b2 := hres2.bound
           have hK : (rd e.xprune c - rd e.xlsub c).toNat + 2 ≤ stepK nextl0 := by unfold stepK; omega
@@ -1187,17 +1297,29 @@ theorem search_spec (hE : EnvOK e L nextl0) {adj : Nat → List Nat}
     (hfuel : (e.jcol.toNat + 1) * stepK nextl0 ≤ fuel) :
     ∀ (rows : List Int) (st : St) (post : List Nat), Root (e := e) (L := L) (nextl0 := nextl0) post st →
       (∀ r ∈ rows, 0 ≤ r ∧ r < e.m) →
+      (∀ v ∈ slice st.segrep 0 st.nseg, ¬ disc st v → ∀ row ∈ rows, rd e.perm_r row ≠ EMPTY → v < repOf e (rd e.perm_r row)) →
       ∃ st' post', search e fuel rows st = some st' ∧
         Root (e := e) (L := L) (nextl0 := nextl0) post' st' ∧ SegExt st post st' post' ∧
         post' = (rootCols e rows).foldl (fun acc k => dfsVisit adj e.jcol.toNat (repN e k) acc) post ∧
         MarkExt e L st post st' post' rows := by
   intro rows
   induction rows with
-  | nil => intro st post hR _; exact ⟨st, post, rfl, hR, SegExt.refl _ _, by simp [rootCols], MarkExt.refl _ _⟩
+  | nil => intro st post hR _ _; exact ⟨st, post, rfl, hR, SegExt.refl _ _, by simp [rootCols], MarkExt.refl _ _⟩
   | cons krow rows ih =>
-    intro st post hR hrows
+    intro st post hR hrows hfr
     obtain ⟨st1, post1, h1, hR1, hS1, hp1, hM1⟩ := rootStep_spec hE hadj hfuel hR (hrows krow mem_cons_self).1 (hrows krow mem_cons_self).2
-    obtain ⟨st2, post2, h2, hR2, hS2, hp2, hM2⟩ := ih st1 post1 hR1 (fun r hr => hrows r (mem_cons_of_mem _ hr))
+      (fun v hv hd hk => hfr v hv hd krow mem_cons_self hk)
+    have hfr1 : ∀ v ∈ slice st1.segrep 0 st1.nseg, ¬ disc st1 v → ∀ row ∈ rows, rd e.perm_r row ≠ EMPTY → v < repOf e (rd e.perm_r row) := by
+      intro v hv hd row hrow hk
+      obtain ⟨nw, a1, a2, a3⟩ := hS1.new
+      rcases seg_mem_ext hR.ok.nseg0 a2 hS1.segFrame a3 hv with h | ⟨t, ht, h⟩
+      · refine hfr v h (fun hd0 => hd ?_) row (mem_cons_of_mem _ hrow) hk
+        obtain ⟨v0, v1⟩ := hR.pok.cap.2.1 v h
+        obtain ⟨t, rfl⟩ := Int.eq_ofNat_of_zero_le v0
+        exact hR1.pok.fin t (by rw [a1]; exact mem_append_right _ (hR.fin t v1 hd0))
+      · exfalso; rw [h] at hd
+        exact hd (hR1.pok.fin t (by rw [a1]; exact mem_append_left _ ht))
+    obtain ⟨st2, post2, h2, hR2, hS2, hp2, hM2⟩ := ih st1 post1 hR1 (fun r hr => hrows r (mem_cons_of_mem _ hr)) hfr1
     refine ⟨st2, post2, by simp [search, h1, h2], hR2, hS1.trans hR.ok.nseg0 hS2, ?_, ?_⟩
     · rw [hp2, hp1]
       conv_rhs => rw [rootCols_cons, foldl_append]
@@ -1235,18 +1357,33 @@ variable {i : Input}
 theorem wfIn_unpack (h : wfIn i = true) :
     (0 ≤ i.jcol ∧ i.jcol < i.m ∧ (i.perm_r.size : Int) = i.m ∧ (i.marker.size : Int) = 3 * i.m) ∧
     (i.jcol ≤ i.repfnz.size ∧ i.jcol ≤ i.parent.size ∧ i.jcol ≤ i.xplore.size ∧ 0 ≤ i.nseg) ∧
-    (i.nseg + i.jcol ≤ i.segrep.size + (visited0 i.jcol i.repfnz).length ∧ 0 ≤ rd i.xlsub i.jcol ∧
+    ((i.jcol ≤ i.segrep.size ∧ (slice i.segrep 0 i.nseg).Nodup ∧
+        ∀ v ∈ slice i.segrep 0 i.nseg, 0 ≤ v ∧ v < i.jcol ∧ (rd i.repfnz v = EMPTY →
+          ∀ row ∈ colRows i.lsubCol, rd i.perm_r row ≠ EMPTY → v < repOf i.env (rd i.perm_r row))) ∧
+      0 ≤ rd i.xlsub i.jcol ∧
       rd i.xlsub i.jcol + (unpivoted i.m i.perm_r).length ≤ i.lsub.size) ∧
     (∀ r : Nat, (r : Int) < i.m → rd i.perm_r r = EMPTY ∨ (0 ≤ rd i.perm_r r ∧ rd i.perm_r r < i.jcol)) ∧
     (∀ r : Nat, (r : Int) < i.m → mk2 i.env i.st0 r ≠ i.jcol) ∧
     (∀ k : Nat, (k : Int) < i.jcol → (k : Int) ≤ repOf i.env k ∧ repOf i.env k < i.jcol ∧ repOf i.env (repOf i.env k) = repOf i.env k) ∧
     (∀ s : Nat, (s : Int) < i.jcol → repOf i.env s = s →
       0 ≤ rd i.xlsub s ∧ rd i.xlsub s ≤ rd i.xprune s ∧ rd i.xprune s ≤ rd i.xlsub i.jcol ∧
-      ∀ row ∈ adjRows i.env i.lsub s, 0 ≤ row ∧ row < i.m ∧ (rd i.perm_r row = EMPTY ∨ (s : Int) ≤ rd i.perm_r row)) ∧
+      ∀ row ∈ adjRows i.env i.lsub s, 0 ≤ row ∧ row < i.m ∧
+        (rd i.perm_r row = EMPTY ∨ (s : Int) ≤ rd i.perm_r row ∨ repOf i.env (rd i.perm_r row) = s)) ∧
     (∀ row ∈ colRows i.lsubCol, 0 ≤ row ∧ row < i.m) := by
   simp only [wfIn, Bool.and_eq_true, decide_eq_true_eq] at h
   rcases h with ⟨⟨⟨⟨⟨⟨⟨⟨⟨⟨⟨⟨⟨⟨⟨h1, h2⟩, h3⟩, h4⟩, h5⟩, h6⟩, h7⟩, h8⟩, h9⟩, h10⟩, h11⟩, h12⟩, h13⟩, h14⟩, h15⟩, h16⟩
-  refine ⟨⟨h1, h2, h3, h4⟩, ⟨h5, h6, h7, h8⟩, ⟨h9, h10, h11⟩, ?_, ?_, ?_, ?_, ?_⟩
+  refine ⟨⟨h1, h2, h3, h4⟩, ⟨h5, h6, h7, h8⟩, ⟨⟨h9.1.1, h9.1.2, ?_⟩, h10, h11⟩, ?_, ?_, ?_, ?_, ?_⟩
+  · intro v hv
+    have := (List.all_eq_true.mp h9.2) v hv
+    simp only [Bool.or_eq_true, Bool.and_eq_true, decide_eq_true_eq, List.all_eq_true, ne_eq, decide_not,
+      Bool.not_eq_true', decide_eq_false_iff_not] at this
+    obtain ⟨⟨a, b⟩, c⟩ := this
+    refine ⟨a, b, fun he row hrow hk => ?_⟩
+    rcases c with c | c
+    · exact absurd he c
+    · rcases c row hrow with c | c
+      · exact absurd c hk
+      · exact c
   · intro r hr
     have := allBelow_iff.mp h12 r hr
     simpa using this
@@ -1263,7 +1400,7 @@ theorem wfIn_unpack (h : wfIn i = true) :
     rcases this with h | h
     · exact absurd hrs h
     · obtain ⟨⟨⟨a, b⟩, c⟩, d⟩ := h
-      exact ⟨a, b, c, fun row hrow => by have := d row hrow; simpa [and_assoc] using this⟩
+      exact ⟨a, b, c, fun row hrow => by have := d row hrow; simpa [and_assoc, or_assoc] using this⟩
   · intro row hrow
     have := (List.all_eq_true.mp h16) row hrow
     simpa using this
@@ -1300,7 +1437,8 @@ theorem wfIn_root (h : wfIn i = true) :
       fun r hr => by
         have hr' : r ∈ slice i.lsub (rd i.xlsub i.jcol) (rd i.xlsub i.jcol) := hr
         rw [slice_nil] at hr'; simp at hr',
-      c3⟩, fun _ _ _ => rfl, le_refl _, b1, b2, b3, a4, ?_, b4⟩, ⟨?_, ?_, ?_, c1⟩, ?_, ?_⟩
+      c3⟩, fun _ _ _ => rfl, le_refl _, b1, b2, b3, a4, ?_, b4⟩,
+    ⟨?_, ?_, ?_, c1.2.1, fun v hv => ⟨(c1.2.2 v hv).1, (c1.2.2 v hv).2.1⟩, c1.1⟩, ?_, ?_⟩
   · intro r r0 r1 hm
     obtain ⟨k, rfl⟩ := Int.eq_ofNat_of_zero_le r0
     exact absurd hm (hmark k r1)
@@ -1311,6 +1449,14 @@ theorem wfIn_root (h : wfIn i = true) :
   · intro r r0 r1 hm
     obtain ⟨k, rfl⟩ := Int.eq_ofNat_of_zero_le r0
     exact absurd hm (hmark k r1)
+
+/-- an entry of `segrep[0..nseg)` the column has not reached lies below the representative of every pivoted nonzero -/
+theorem wfIn_fresh (h : wfIn i = true) :
+    ∀ v ∈ slice i.st0.segrep 0 i.st0.nseg, ¬ disc i.st0 v →
+      ∀ row ∈ colRows i.lsubCol, rd i.env.perm_r row ≠ EMPTY → v < repOf i.env (rd i.env.perm_r row) := by
+  obtain ⟨_, _, ⟨c1, _, _⟩, _⟩ := wfIn_unpack h
+  intro v hv hd row hrow hk
+  exact (c1.2.2 v hv).2.2 (not_not.mp hd) row hrow hk
 
 theorem wfIn_fuel (h : wfIn i = true) : (i.env.jcol.toNat + 1) * stepK (rd i.xlsub i.jcol) ≤ fuelBound i := by
   obtain ⟨_, _, ⟨c1, c2, c3⟩, _⟩ := wfIn_unpack h
@@ -1330,7 +1476,7 @@ theorem columnDfs_eq_dfsList (h : wfIn i = true) :
   have hE := wfIn_env h
   have hR := wfIn_root h
   obtain ⟨st', post', hs, hR', hS, hp, _⟩ := search_spec hE (adj := adjR i.env i.lsub) (fun s h1 h2 => adjR_eq _ _ s h1 h2)
-    (wfIn_fuel h) (colRows i.lsubCol) i.st0 _ hR (wfIn_unpack h).2.2.2.2.2.2.2
+    (wfIn_fuel h) (colRows i.lsubCol) i.st0 _ hR (wfIn_unpack h).2.2.2.2.2.2.2 (wfIn_fresh h)
   obtain ⟨nw, n1, n2, n3⟩ := hS.new
   simp only [columnDfs, hs]
   refine ⟨_, nw, rfl, ?_, n2, n3, hS.segFrame⟩
@@ -1414,7 +1560,7 @@ theorem search_lsub (h : wfIn i = true) :
   have hE := wfIn_env h
   have hR := wfIn_root h
   obtain ⟨st', post', hs, hR', _, _, _⟩ := search_spec hE (adj := adjR i.env i.lsub) (fun s h1 h2 => adjR_eq _ _ s h1 h2)
-    (wfIn_fuel h) (colRows i.lsubCol) i.st0 _ hR (wfIn_unpack h).2.2.2.2.2.2.2
+    (wfIn_fuel h) (colRows i.lsubCol) i.st0 _ hR (wfIn_unpack h).2.2.2.2.2.2.2 (wfIn_fresh h)
   refine ⟨st', hs, hR'.ok.app.nodup, fun r => ⟨fun hr => hR'.ok.app.rows r hr, fun ⟨a, b, c, d⟩ => hR'.ma r a b d c⟩,
     hR'.ok.pre, hR'.ok.nextl, ?_⟩
   -- the appended rows are distinct unpivoted rows: they fit
@@ -1457,7 +1603,7 @@ theorem search_lsub_reach (h : wfIn i = true) :
   have hR := wfIn_root h
   obtain ⟨_, _, _, _, hmark, _, _, _⟩ := wfIn_unpack h
   obtain ⟨st', post', hs, hR', hS, hp, hM⟩ := search_spec hE (adj := adjR i.env i.lsub) (fun s h1 h2 => adjR_eq _ _ s h1 h2)
-    (wfIn_fuel h) (colRows i.lsubCol) i.st0 _ hR (wfIn_unpack h).2.2.2.2.2.2.2
+    (wfIn_fuel h) (colRows i.lsubCol) i.st0 _ hR (wfIn_unpack h).2.2.2.2.2.2.2 (wfIn_fresh h)
   obtain ⟨nw, n1, _, _⟩ := hS.new
   refine ⟨st', nw, hs, ?_, hR'.ok.app.nodup, ?_⟩
   · rw [← n1, hp, dfsList, foldl_map]; rfl
